@@ -36,39 +36,87 @@ type Defer struct {
 	Args unsafe.Pointer // defer func and args links
 }
 
+// panicRec is one pending panic of the current thread. The thread's panic slot
+// (getPanic/setPanic) holds the innermost one; prev links to the panics that
+// were already unwinding when it was raised (a deferred call panicked). frame
+// is the defer frame whose deferred calls are currently run on behalf of this
+// panic. Records live in collector-visible memory and the slot is a collector
+// root: the panic value must stay reachable while deferred calls run (it used
+// to sit in malloc memory behind a pthread key, so a collection during
+// unwinding could reclaim a boxed panic value before recover returned it).
+type panicRec struct {
+	v     any
+	prev  *panicRec
+	frame *Defer
+}
+
 // Recover recovers a panic.
 func Recover() (ret any) {
-	ptr := excepKey.Get()
-	if ptr != nil {
-		excepKey.Set(nil)
-		ret = *(*any)(ptr)
-		c.Free(ptr)
+	if p := getPanic(); p != nil {
+		// Only the innermost panic is stopped: a panic that was raised and
+		// recovered inside a deferred call leaves the panic that made that
+		// deferred call run pending.
+		setPanic(p.prev)
+		ret = p.v
+		freePanic(p)
 	}
 	return
 }
 
 // Panic panics with a value.
 func Panic(v any) {
-	ptr := c.Malloc(unsafe.Sizeof(v))
-	*(*any)(ptr) = v
-	excepKey.Set(ptr)
+	p := (*panicRec)(AllocZ(unsafe.Sizeof(panicRec{})))
+	p.v = v
+	p.prev = getPanic()
+	setPanic(p)
 
 	Rethrow((*Defer)(c.GoDeferData()))
 }
 
+// panicEnter records that the innermost pending panic p is about to run the
+// deferred calls of frame link. Earlier panics that were running deferred
+// calls of that same frame have been overtaken by p: p replaces them.
+func panicEnter(p *panicRec, link *Defer) {
+	for p.prev != nil && p.prev.frame == link {
+		old := p.prev
+		p.prev = old.prev
+		freePanic(old)
+	}
+	p.frame = link
+}
+
+// dropPanics discards all pending panics of the current thread.
+func dropPanics() {
+	p := getPanic()
+	for p != nil {
+		next := p.prev
+		freePanic(p)
+		p = next
+	}
+	setPanic(nil)
+}
+
+// freePanic releases a panic record (allocated by AllocZ).
+func freePanic(p *panicRec) {
+	p.v = nil
+	p.prev = nil
+	FreeDeferNode(unsafe.Pointer(p))
+}
+
 var (
-	excepKey   pthread.Key
 	goexitKey  pthread.Key
 	mainThread pthread.Thread
 )
 
 func Goexit() {
+	// Goexit aborts the panics that are unwinding: the remaining deferred
+	// calls run and the goroutine ends.
+	dropPanics()
 	goexitKey.Set(unsafe.Pointer(&goexitKey))
 	Rethrow((*Defer)(c.GoDeferData()))
 }
 
 func init() {
-	excepKey.Create(nil)
 	goexitKey.Create(nil)
 	mainThread = pthread.Self()
 }
